@@ -343,6 +343,29 @@ def gen_site(rng, boom_ok=False):
             lambda: f"{e}.jets.Where(lambda {j}, /: {j}.pt > {v()}).Count()",
             lambda: f"{e}.jets.Select(lambda *{j}: {j}[0].pt * {v()})",
         ]
+        # parameter defaults of a nested lambda: python evaluates them in the ENCLOSING scope, so
+        # `lambda j, cut=cut: ...` (the idiom that freezes a loop variable) reads the captured
+        # `cut` in the default and the parameter `cut` in the body
+        def plain():
+            cands = [n for n in (["G0", "G1"] if module_scope else ["G0", "G1", "c0", "c1"])
+                     if n not in banned and n not in (e, j, k)]
+            n = rng.choice(cands or ["G1"])
+            if n not in free:
+                free.append(n)
+            return n
+
+        def dflt(fmt):
+            def form():
+                return fmt.format(e=e, j=j, k=k, n=(plain() if "{n}" in fmt else ""),
+                                  v=(v() if "{v}" in fmt else ""))
+            return form
+
+        forms += [
+            dflt("{e}.jets.Select(lambda {j}, {n}={n}: {j}.pt + {n})"),
+            dflt("{e}.jets.Where(lambda {j}, *, {n}={n}: {j}.pt > {n}).Count()"),
+            dflt("{e}.jets.Select(lambda {j}, q={v}: {j}.pt * q + {e}.a)"),
+            dflt("{e}.jets.Select(lambda {j}, {n}={n} + {v}: {j}.eta + {n})"),
+        ]
         # a method called on a captured value (the receiver is a free variable like any other)
         forms += [
             lambda: f"{e}.a + {v()}.__abs__()",
@@ -865,7 +888,10 @@ def free_names(node, bound=frozenset()):
         a = node.args
         inner = bound | {x.arg for x in a.posonlyargs + a.args + a.kwonlyargs} | {
             x.arg for x in (a.vararg, a.kwarg) if x is not None}
-        return free_names(node.body, inner)
+        out = free_names(node.body, inner)
+        for d in list(a.defaults) + [x for x in a.kw_defaults if x is not None]:
+            out |= free_names(d, bound)  # defaults are evaluated in the enclosing scope
+        return out
     if isinstance(node, (ast.ListComp, ast.SetComp, ast.GeneratorExp, ast.DictComp)):
         out = set()
         inner = bound
@@ -913,6 +939,13 @@ def sdig(s: str) -> str:
 
 CURRENT_CALL = contextvars.ContextVar("verif_current_call", default=None)
 CURRENT_CRASH = contextvars.ContextVar("verif_current_crash", default=None)
+
+
+class _FormattingSink(__import__("logging").Handler):
+    "Formats every record it is given (as a stream or file handler would) and drops the text."
+
+    def emit(self, record):
+        self.format(record)
 
 
 class Token:
@@ -1272,7 +1305,7 @@ class Forest:
         if lvl != "off":
             logging.disable(logging.NOTSET)
             lg = logging.getLogger("func_adl")
-            lg.handlers[:] = [logging.NullHandler()]
+            lg.handlers[:] = [_FormattingSink()]  # a handler that really formats every record
             lg.propagate = False
             lg.setLevel(getattr(logging, lvl))
             self.stat(f"runs_with_logging_{lvl}")
